@@ -105,6 +105,6 @@ KANI_ASSUMPTIONS = [
 ]
 META = {"not_covered": [
     "equality of the resulting tree with a full backup (composition through the archiver)",
-    "parent selection (ParentOptions::get_parent), set_dir/finish_dir stack handling, several parent trees",
+    "which snapshots become parents (group / latest selection in ParentOptions::get_parent: iterator adapters; the wiring of the two comparison switches IS a unit), set_dir/finish_dir stack handling, several parent trees",
     "the unchanged-tree short cut in tree_archiver.rs backup_tree",
 ]}
